@@ -8,7 +8,7 @@ from typing import Dict, List, Optional, Set, Tuple
 from .. import rx
 from ..collect import run_paths
 from ..common import construct, where
-from ..flow import show
+from ..flow import show, strparts
 from ..fold import Folder, NotConst
 from ..loader import AnalysisError, FuncInfo, Program
 from ..report import Report, Undecided
@@ -176,11 +176,13 @@ def extract_writer(p: Program, rep: Report, rule: str) -> CookieWriter:
     legal = "".join(chr(c) for c in legal_chars)
     # slow path: '"' + value.translate(<table>) + '"'
     v = slow[0].value
-    ok = (v[0] == "binop" and v[1] == "Add" and v[3] == ("const", '"') and v[2][0] == "binop" and v[2][1] == "Add" and v[2][2] == ("const", '"')
-          and v[2][3][0] == "call" and v[2][3][1] == ("attr", ("param", "value"), "translate") and len(v[2][3][2]) == 1 and v[2][3][2][0][0] == "global")
+    vp = strparts(v) or []
+    ok = (len(vp) == 3 and vp[0] == ("const", '"') and vp[2] == ("const", '"')
+          and vp[1][0] == "call" and vp[1][1] == ("attr", ("param", "value"), "translate") and len(vp[1][2]) == 1 and vp[1][2][0][0] == "global")
+    tr_call = vp[1] if ok else None
     if not ok:
         raise Undecided(f"{rule}: unrecognised quoted path {show(v)}")
-    tname = v[2][3][2][0][1].split(":")[-1]
+    tname = tr_call[2][0][1].split(":")[-1]
     try:
         table = F.module_const(DS, tname)
     except NotConst as e:
